@@ -58,6 +58,7 @@ pub fn op_kind(op: &Op) -> &'static str {
         Op::ConfigObject { .. } => "ConfigObject",
         Op::Pass => "Pass",
         Op::FailFastNext => "FailFastNext",
+        Op::TamperOutput { .. } => "TamperOutput",
         Op::Wait { .. } => "Wait",
         Op::Faults { .. } => "Faults",
     }
@@ -886,6 +887,26 @@ pub fn run_l1(scn: &C10Scenario, stats: &mut RunStats) -> Vec<Violation> {
                     }
                 }
             }
+            Op::TamperOutput { output, body, source } => {
+                match body.as_ref().and_then(|b| b.bytes()) {
+                    Some(bytes) => store.user_write(output, &bytes),
+                    None => store.user_remove(output),
+                }
+                if let Some(bytes) = store.user_read(source) {
+                    store.user_write(source, &bytes);
+                }
+                if let Some(tree) = inc.tree.as_mut() {
+                    if let Err(msg) = exec::catch(|| tree.source_changed(Path::new(source))) {
+                        violations.push(Violation::new(
+                            P,
+                            "bounded",
+                            &panic_class(&msg),
+                            format!("op #{} (TamperOutput): notification panicked: {}", op_index, msg),
+                        ));
+                        break;
+                    }
+                }
+            }
             Op::Touch { path } => {
                 if let Some(bytes) = store.user_read(path) {
                     store.user_write(path, &bytes);
@@ -1177,6 +1198,7 @@ fn references(op: &Op, path: &str) -> bool {
         Op::Edit { path: p, .. } | Op::Touch { path: p } | Op::Add { path: p, .. } => hit(p),
         Op::RemoveFile { path: p } | Op::RemoveDir { path: p } => hit(p),
         Op::Rename { from, to } => hit(from) || hit(to),
+        Op::TamperOutput { source, .. } => hit(source),
         Op::Faults { rules, renotify } => {
             rules.iter().any(|r| hit(&r.path)) || renotify.iter().any(|p| hit(p))
         }
@@ -1659,6 +1681,7 @@ impl Property for C10 {
                     Op::ConfigObject { text } => format!("ConfigObject {}", text),
                     Op::Pass => "Pass".to_owned(),
                     Op::FailFastNext => "FailFastNext".to_owned(),
+                    Op::TamperOutput { output, source, .. } => format!("TamperOutput {} (source {})", output, source),
                     Op::Wait { ms } => format!("Wait {}ms", ms),
                     Op::Faults { rules, renotify } => format!("Faults {:?} renotify {:?}", rules, renotify),
                 }).collect::<Vec<_>>(),
